@@ -111,6 +111,10 @@ def make_inputs(ctx):
     for (b, z) in plain:
         cats.append(dict(box=b, zkms=z, nrows=nrows, halo=hs.gen_values(rng, hs.raw_schema(), nrows),
                          cleaned=hs.gen_values(rng, hs.cleaned_schema(), nrows), kind='plain'))
+    # integral header values stored as YAML integers (`BoxSize: 2000`): Python ints reach the loaders
+    for (b, z) in ([(2000.0, 96.0)] if ctx.quick() else [(2000.0, 96.0), (500.0, 30000.0), (7.0, 3.0)]):
+        cats.append(dict(box=b, zkms=z, nrows=nrows, halo=hs.gen_values(rng, hs.raw_schema(), nrows),
+                         cleaned=hs.gen_values(rng, hs.cleaned_schema(), nrows), kind='int-header', int_header=True))
     for (b, z) in extreme:
         spec = dict(box=b, zkms=z, nrows=nrows, halo=hs.gen_values(rng, hs.raw_schema(), nrows, extreme_codes=True),
                     cleaned=hs.gen_values(rng, hs.cleaned_schema(), nrows), kind='extreme')
